@@ -301,6 +301,18 @@ Proof.
     + rewrite Hlive. exact H3.
 Qed.
 
+(* a snapshot attempt whose checkpoint is busy changes nothing; in particular the staging directory keeps
+   every segment it had (a failed attempt leaves nothing NEW behind and removes nothing OLD) *)
+Theorem blocked_changes_nothing s : fst (step s (OSnap PBlocked)) = s.
+Proof.
+  unfold step, step_gen, snapshot_step. destruct (full_due s); [reflexivity|].
+  destruct (wal s); reflexivity.
+Qed.
+
+Theorem blocked_keeps_staging s :
+  fst (step s (OSnap PBlocked)) = s /\ staging (fst (step s (OSnap PBlocked))) = staging s.
+Proof. rewrite blocked_changes_nothing. split; reflexivity. Qed.
+
 Lemma inv_init : Inv init.
 Proof.
   exists []. split4; [reflexivity | intros _; apply cells_eq_refl | apply cells_eq_refl | cbn; lia].
